@@ -92,6 +92,7 @@ type spec struct {
 	Client           string
 	Cred             string
 	Verifier         bool
+	VetoAtClaims     bool // the storage's claim hooks for the exchanged token refuse (access_denied) after both request hooks passed; judged only when a hook actually ran
 	VetoAtCreate     bool // the storage's second hook CreateTokenExchangeRequest refuses (invalid_target) after ValidateTokenExchangeRequest passed
 	GrantNil         bool // the storage grants no scope at all: SetCurrentScopes(nil)
 	Extras           bool // the storage also implements CanGetPrivateClaimsFromRequest / CanSetUserinfoFromRequest / ... besides TokenExchangeStorage
@@ -151,6 +152,9 @@ var scenarios = []spec{
 	{Stratum: "scenario:impersonated-jwt-access-token-without-openid", SubjKind: "refresh", SubjDeclared: "refresh", ActorKind: "opaque", ActorDeclared: "natural", Requested: "access", Policy: vstore.TEImpersonate, Client: "web2", Cred: "right", Scope: "api", UISubjectByScope: true},
 	{Stratum: "scenario:veto-at-create", SubjKind: "jwt", SubjDeclared: "access", ActorKind: "none", Requested: "access", Policy: vstore.TEAllow, Client: "web", Cred: "right", Scope: "openid", VetoAtCreate: true},
 	{Stratum: "scenario:veto-at-create-id_token", SubjKind: "refresh", SubjDeclared: "refresh", ActorKind: "none", Requested: "id", Policy: vstore.TEAllow, Client: "web2", Cred: "right", Scope: "openid", VetoAtCreate: true},
+	{Stratum: "scenario:veto-at-claims-jwt-access", SubjKind: "jwt", SubjDeclared: "access", ActorKind: "none", Requested: "access", Policy: vstore.TEAllow, Client: "web2", Cred: "right", Scope: "openid", VetoAtClaims: true},
+	{Stratum: "scenario:veto-at-claims-jwt-access-extras", SubjKind: "refresh", SubjDeclared: "refresh", ActorKind: "opaque", ActorDeclared: "natural", Requested: "absent", Policy: vstore.TEImpersonate, Client: "web2", Cred: "right", Scope: "openid api", VetoAtClaims: true, Extras: true},
+	{Stratum: "scenario:veto-at-claims-id_token", SubjKind: "jwt", SubjDeclared: "access", ActorKind: "none", Requested: "id", Policy: vstore.TEAllow, Client: "web", Cred: "right", Scope: "openid email", VetoAtClaims: true},
 	{Stratum: "scenario:grant-nil-access", SubjKind: "jwt", SubjDeclared: "access", ActorKind: "none", Requested: "access", Policy: vstore.TEAllow, Client: "web2", Cred: "right", Scope: "openid profile email", GrantNil: true, UISubjectByScope: true},
 	{Stratum: "scenario:grant-nil-id_token", SubjKind: "id", SubjDeclared: "id", ActorKind: "none", Requested: "id", Policy: vstore.TEImpersonate, Client: "web", Cred: "right", Scope: "openid profile email", GrantNil: true, UISubjectByScope: true},
 	{Stratum: "scenario:extras-jwt-actor", SubjKind: "jwt", SubjDeclared: "access", ActorKind: "opaque", ActorDeclared: "natural", Requested: "access", Policy: vstore.TEAllow, Client: "web2", Cred: "right", Scope: "openid api", Extras: true},
@@ -219,6 +223,14 @@ func drawSpec(r *rand.Rand, i int, matrixCases int) spec {
 		// the storage's second hook vetoes: an OAuth error for every requested type, nothing issued
 		s.Stratum = "near-valid/veto-at-create"
 		s.VetoAtCreate = true
+		return s
+	case 3:
+		// the storage refuses at the claim hooks of the token to be issued (JWT access token / ID token): an OAuth error, never a token
+		s.Stratum = "near-valid/veto-at-claims"
+		s.VetoAtClaims, s.VetoAtCreate = true, false
+		s.Extras = r.IntN(2) == 0
+		s.Client, s.Cred = pick(r, "web2", "web2", "web", "svc"), pick(r, "right", "right", "basic-right")
+		s.Requested = pick(r, "absent", "access", "id", "id", "refresh")
 		return s
 	case 1:
 		// the storage grants no scope although several known ones were requested
@@ -611,16 +623,34 @@ func (cr *caseRun) do(e *exch) *opdrv.Tokens {
 		}
 		run.Count("refusal_error|"+rn, fmt.Sprintf("%d %s: %s", resp.Status, errCode, desc))
 		// a refused exchange must not have issued anything: no token may have been created at the storage
-		hookVeto := false
+		hookVeto, claimsVeto := false, false
+		for _, en := range w.Store.Journal() {
+			if (en.Method == "GetPrivateClaimsFromTokenExchangeRequest" || en.Method == "SetUserinfoFromTokenExchangeRequest") && en.Err != "" && !en.Fault {
+				// the claim hooks need the id of the token record (jti), so the record exists before they can refuse:
+				// a record that is never delivered is not "a success response", the statement is silent about it
+				claimsVeto = true
+			}
+		}
 		for _, en := range w.Store.Journal() {
 			switch en.Method {
 			case "CreateTokenExchangeRequest":
 				hookVeto = hookVeto || (en.Err != "" && !en.Fault)
 			case "CreateAccessToken", "CreateAccessAndRefreshTokens":
-				if en.Err == "" {
+				if en.Err == "" && claimsVeto {
+					run.Count("grey", "token-record-created-before-the-claims-hook-refused")
+				} else if en.Err == "" {
 					last.Verdict = "violation"
 					cr.violate("refusal-after-token-creation", fmt.Sprintf("the exchange was answered %d %s (%s) but the storage had already created a token for it (%s -> %s)", resp.Status, errCode, desc, en.Method, en.Ret))
 					return nil
+				}
+			}
+		}
+		if cr.sp.VetoAtClaims {
+			for _, en := range w.Store.Journal() {
+				if (en.Method == "GetPrivateClaimsFromTokenExchangeRequest" || en.Method == "SetUserinfoFromTokenExchangeRequest") && en.Err != "" && !en.Fault {
+					run.Observed("refused:storage-veto-at-claims:" + rn)
+					run.Count("veto_at_claims|"+rn, "refused at "+en.Method+": requested="+e.ReqDim)
+					break
 				}
 			}
 		}
@@ -663,6 +693,16 @@ func (cr *caseRun) do(e *exch) *opdrv.Tokens {
 		last.Verdict = "violation"
 		cr.violate("success-despite:"+must0[0].key, what)
 		return nil
+	}
+	for _, en := range w.Store.Journal() {
+		if (en.Method == "GetPrivateClaimsFromTokenExchangeRequest" || en.Method == "SetUserinfoFromTokenExchangeRequest") && en.Err != "" && !en.Fault {
+			last.Verdict = "violation"
+			cr.violate("success-despite:storage-veto:claims-hook", fmt.Sprintf("200 although the storage refused the request at %s (%s); body %q", en.Method, en.Err, body))
+			return nil
+		}
+	}
+	if cr.sp.VetoAtClaims {
+		run.Count("veto_at_claims|"+rn, "success without a claims hook (opaque token): requested="+e.ReqDim+" client="+e.Client.ID)
 	}
 	for _, g := range grey0 {
 		run.Count("grey_success", g)
@@ -939,6 +979,7 @@ func runCase(run *ev.Run, idx, router, matrixCases int) {
 	w.Store.TENoRefreshVet = sp.NoRefreshVet
 	w.Store.TEUISubByScope = sp.UISubjectByScope
 	w.Store.TEVetoAtCreate = sp.VetoAtCreate
+	w.Store.TEVetoAtClaims = sp.VetoAtClaims
 	w.Store.TEGrantNil = sp.GrantNil
 	c := &caseCtx{w: w, router: router, r: r, prep: []prepOp{}}
 	cr := &caseRun{run: run, idx: idx, c: c, sp: sp}
@@ -1082,7 +1123,7 @@ func main() {
 		mandatory = append(mandatory, "success:"+rn+":access_token", "success:"+rn+":refresh_token", "success:"+rn+":id_token",
 			"success:actor:"+rn, "success:impersonate:"+rn, "refresh-usable:"+rn,
 			"impersonated-id_token-without-openid:"+rn, "impersonated-jwt-access-token-without-openid:"+rn,
-			"refused:storage-veto-at-create:"+rn, "success:grant-nil:"+rn, "success:extras-jwt-actor:"+rn,
+			"refused:storage-veto-at-create:"+rn, "refused:storage-veto-at-claims:"+rn, "success:grant-nil:"+rn, "success:extras-jwt-actor:"+rn,
 			"refused:storage-veto:"+rn, "refused:client-unauthenticated:"+rn, "refused:requested-type-unissuable:"+rn,
 			"refused:subject-dead:"+rn, "refused:subject-garbage:"+rn, "refused:subject-foreign:"+rn, "refused:subject-mistyped:"+rn,
 			"refused:subject-type-unsupported:"+rn, "refused:actor-dead:"+rn, "refused:actor-garbage:"+rn)
